@@ -153,7 +153,7 @@ CLAIMED = {
             "linear span search returns the unique half-open interval; binary search (termination included) equals linear search under the tolerance hypothesis that F-17b violates (refuted without it by decide +kernel); A2.2 has p+1 non-negative values summing to 1 and equals the Cox-de Boor "
             "recursion with local support; all-degrees table index theorem. Model tied to helpers.find_span_*/basis_function*/knotvector.* by exact "
             "correspondence; binary search, A2.3/A2.4/A2.5 and the knot-vector utilities are covered by correspondence + exact oracle only (listed as partial in the evidence).",
-            "Not proved yet: A2.4/A2.5; derivative rows sum to zero (oracle + correspondence). F-17b is a recorded finding."),
+            "Also proved: the k-th derivative rows (k >= 1) of the basis-derivative table sum to zero and its zeroth row is A2.2 (for the spec-level model of A2.3). Not proved: A2.4 / A2.5 = Cox-de Boor and its derivatives (oracle + correspondence); knot-vector utilities (correspondence + oracle). F-17b is a recorded finding."),
 }
 NOT_YET = {}
 for i in range(1, 21):
